@@ -63,6 +63,24 @@ pub async fn run_socket_worker(
     #[cfg(feature = "metrics")]
     WORKER_INDEX.with(|index| index.set(worker_index));
 
+    #[cfg(aquatic_verif)]
+    if aquatic_common::verif::probe("ws/socket/start") {
+        return Ok(());
+    }
+    // Let a test driver choose which socket worker a connection lands on
+    #[cfg(aquatic_verif)]
+    let config = {
+        let mut config = config;
+
+        if ::std::env::var("AQV_PORT_PER_WORKER").is_ok() {
+            let port = config.network.address.port() + worker_index as u16;
+
+            config.network.address.set_port(port);
+        }
+
+        config
+    };
+
     let config = Rc::new(config);
     let access_list = state.access_list;
 
@@ -132,6 +150,11 @@ pub async fn run_socket_worker(
     let mut incoming = listener.incoming();
 
     while let Some(stream) = incoming.next().await {
+        #[cfg(aquatic_verif)]
+        if aquatic_common::verif::probe("ws/socket/accept") {
+            return Ok(());
+        }
+
         match stream {
             Err(err) => {
                 ::log::error!("accept connection: {:#}", err);
@@ -180,6 +203,11 @@ pub async fn run_socket_worker(
                         control_message_senders,
                         connection_handles
                     ) async move {
+                        #[cfg(aquatic_verif)]
+                        if aquatic_common::verif::probe("ws/socket/connection") {
+                            return;
+                        }
+
                         let runner = ConnectionRunner {
                             config,
                             access_list,
